@@ -23,25 +23,28 @@ PROPS = {
                 partial='proved: Spec.C07.bounds for every request of the cycle, and no-shrink when max-idle-time = 0; keepsNeeded (scale-down never removes a needed shard) and no-shrink under need-space are monitored on implementation and model outcomes, theorem pending'),
     'C08': dict(engine='coord', module='Kvass.Props.C08', assumptions=COORD_ASSUME,
                 partial='proved: leftAlone, noNeedlessPush, noUpdates for every schedule; noSecondAssign and dstInSync (destination of a move is in sync) are monitored on implementation and model outcomes, theorem pending'),
-    'C09': dict(engine='store', module='Kvass.Props.C09', timeout=3000,
+    'C09': dict(engine='store', module='Kvass.Props.C09', timeout=3000, search_n=1,
                 assumptions=['json decoding inverts encoding (hypothesis hde of the theorems; exercised with escaping-heavy values)', 'rename(2) is atomic and a process killed inside write(2) leaves a prefix; RLIMIT_FSIZE stands in for the kill / disk-full point', 'no power-loss model (no fsync reasoning)'],
                 partial='none for the stated clauses at the model level; byte contents are abstract (enc/dec parameters)'),
-    'C10': dict(engine='sidecar', module='Kvass.Props.C10',
+    'C10': dict(engine='sidecar', module='Kvass.Props.C10', search_n=1200,
                 assumptions=['update requests carry each hash once (what the coordinator sends); the clock is injected through the verif hook VerifSetTimeNow'],
                 partial='update / scrape / restart step theorems hold from every state satisfying Cons and IdleInv, which are proved for every operation history; restart is proved at model level (Prop), the Bool monitor restartOk is evaluated on the real sidecar'),
-    'C12': dict(engine='proxy', module='Kvass.Props.C12',
+    'C12': dict(engine='proxy', module='Kvass.Props.C12', search_n=800,
                 assumptions=['gunzip is a function (the model sees the decompressed reads)', 'the stream parser reads its input to EOF or error', 'net/http ResponseWriter.Write writes everything or fails; short writes are covered for the tee reader alone (theorem over all write scripts; TestWrapReader-style micro engine not needed for http)'],
                 partial='none for the stated clauses; content type is checked by the harness monitor only (not part of the abstract model)'),
-    'C13': dict(engine='proxy', module='Kvass.Props.C13',
+    'C13': dict(engine='proxy', module='Kvass.Props.C13', search_n=800,
                 assumptions=['net/http: the status is fixed by the first write, a later WriteHeader is ignored, panic(http.ErrAbortHandler) cuts the connection (validated against a real httptest server and client on every run)', 'timeouts are represented by their effect (request fails / body read fails)'],
                 partial='none for the stated clauses'),
-    'C14': dict(engine='sidecar', module='Kvass.Props.C14',
+    'C14': dict(engine='sidecar', module='Kvass.Props.C14', search_n=1200,
                 assumptions=['the float mean int64(float64(total)/float64(n)) equals integer division below 2^51 (n <= 3): exercised at exact multiples and neighbours', 'metric relabeling is a parameter (kept : Bool per sample) of the counting model; the real relabel engine runs in the harness'],
                 partial='none for the stated clauses: counts, per-metric sums, sliding window over every result sequence, shard load formula'),
-    'C17': dict(engine='disc', module='Kvass.Props.C17',
+    'C17': dict(engine='disc', module='Kvass.Props.C17', search_n=1500,
                 assumptions=['a discovered target is represented by the outcome of its translation (key = final labels + URL, dropped, rejected); the label pipeline itself is C02/C15', 'TargetsDiscovery methods are atomic under their mutex (goroutine interleavings inside a method are not modelled)'],
                 partial='update / reload / group theorems are per step, for every state; the explorer table is proved for reloads and compared with the real Explore on every history; readers running concurrently with writers are exercised only by the snapshot re-comparison'),
-    'C18': dict(engine='k8s', module='Kvass.Props.C18',
+    'C20': dict(engine='explore', module='Kvass.Props.C20', timeout=3000, search_n=150,
+                assumptions=['worker goroutines and timers are modelled as atomic steps (start / finish / timer) in arbitrary interleaving; the real channel is FIFO, the model lets a worker take any queued entry', 'the scrape manager keeps every job during reloads in the harness (a probe of an unknown job fails without an HTTP request)'],
+                partial='token / success / retry / estimate theorems hold per entry (target identity) for every interleaving; per hash the property has the listed known findings when a target disappears and is discovered again while its old entry still has a queued or running probe; liveness is stated per step (failed probe arms a timer, the timer re-queues iff still listed), eventual success is checked by the engine'),
+    'C18': dict(engine='k8s', module='Kvass.Props.C18', search_n=1,
                 assumptions=['client-go fake clientset stands in for the API server; pod names are <sts>-<ordinal>'],
                 partial='none for the stated clauses: exact deleted-claim set, replica count / no-op, ordinal order, rolling-update skip are theorems; readiness wait (2 min timer) is not part of the property'),
     'C04': dict(engine='coord', module='Kvass.Props.C04', assumptions=COORD_ASSUME,
@@ -49,6 +52,7 @@ PROPS = {
 }
 
 LEVEL_TEXT = {
+    'C20': 'Machine-checked theorems (Lean 4) by induction over every interleaving of gets, discovery updates, reloads, probe starts, probe results and retry timers: an entry owns at most one token (queued / in flight / sleeping), tokens exist only for asked, not yet successful entries, no token after success, a failed probe arms exactly one timer that re-queues iff the same entry is still listed, the estimate is the successful probe\'s counts. Conditions regenerated from explore.go; linearised event logs of the real Explore with 1-3 workers are validated against the model with timers firing at any moment.',
     'C17': 'Machine-checked theorems (Lean 4), for every state and every update / reload: the sets of a job in an update become exactly its translation, other jobs keep theirs, a reload keeps listed jobs unchanged and removes the others in one step, all dropped targets are kept, a rejected target does not affect the rest of its group, explorer entries follow reloads. Conditions regenerated from discovery.go/translate.go/explore.go; validated on random histories through the real Run channel, ApplyConfig and Explore, with snapshot re-comparison.',
     'C12': 'Machine-checked theorems (Lean 4): for every chunking of the body and every sequence of short writes the tee reader forwards exactly the body (induction over chunks and over the short-write loop), and in every successful scenario the proxy answers 200 with exactly those bytes whether or not the target is assigned. Loop conditions regenerated from reader.go/proxy.go; validated against the real Proxy behind an HTTP server with scripted read sizes, gzip, all payload kinds.',
     'C13': 'Machine-checked theorems (Lean 4) over every scenario (failure kind x stop x assignment x every read sequence with a failing read at any position): a failed real scrape yields a non-200 or aborted response, health is truthful, the counter moves exactly once per attempt. Validated against the real Proxy for every byte offset of a multi-read body, three error kinds, gzip and identity.',
@@ -70,10 +74,11 @@ NOT_APPLICABLE = {
     'C11': 'check under construction',
     'C14': 'check under construction',
     'C15': 'check under construction', 'C16': 'check under construction', 
-    'C19': 'check under construction', 'C20': 'check under construction',
+    'C19': 'check under construction',
 }
 
 ENGINES = [
+    {'name': 'explore', 'path': 'harness/cmd/kvh/explore.go', 'kind_free_text': 'real Explore.Run with 1-3 workers; probes block in an in-memory transport until released with a chosen result; event log validated against Explore.step (set-of-states simulation), plus per-hash monitors'},
     {'name': 'disc', 'path': 'harness/cmd/kvh/disc.go', 'kind_free_text': 'real TargetsDiscovery fed through Run\'s channel, ApplyConfig, Explore.UpdateTargets/ApplyConfig/Get; histories of updates and reloads trace-validated against Disc.step'},
     {'name': 'proxy', 'path': 'harness/cmd/kvh/proxy.go', 'kind_free_text': 'real sidecar Proxy behind an httptest server, real HTTP client, in-memory target with scripted read sizes / cut offsets / error kinds'},
     {'name': 'store', 'path': 'harness/cmd/kvh/store.go', 'kind_free_text': 'child process running the real UpdateTargets under RLIMIT_FSIZE=N (kill and EFBIG), then a fresh TargetsManager.Load(); directory state matched against the crash states of the extracted save protocol'},
